@@ -33,3 +33,10 @@ func UsesAssertOnParam(datum interface{}) interface{} {
 }
 
 func UsesSprintOfValue(v reflect.Value) string { return fmt.Sprint(v.Interface()) }
+
+func UsesStringer(v interface{}) string {
+	if s, ok := v.(fmt.Stringer); ok {
+		return s.String()
+	}
+	return ""
+}
